@@ -51,6 +51,23 @@ def http_code(e):
     return None
 
 
+def underlying(fnm, n):
+    """(expression, polarity) of a test node after following name copies and `not`."""
+    e, pol = n.ast, True
+    for _ in range(8):
+        if isinstance(e, ast.UnaryOp) and isinstance(e.op, ast.Not):
+            e, pol = e.operand, not pol
+            continue
+        if isinstance(e, ast.Name):
+            e2 = fnm.resolve(n, e)
+            if e2 is e:
+                break
+            e = e2
+            continue
+        break
+    return e, pol
+
+
 def parent_map(tree):
     pm = {}
     for p in ast.walk(tree):
@@ -116,7 +133,6 @@ def run(ctx: Context):
     secrets_enum = idx.cls("storage.http_common:Secrets")
     member_value = {k: folder.class_attr(secrets_enum, k) for k in secrets_enum.attrs}
     value_member = {v: k for k, v in member_value.items()}
-    pseudo = mod.funcs.get("_authorized_route") or idx.func("storage.http_server:_authorized_route")
 
     # ---------------------------------------------------------------- 1 -------
     with ctx.rule("C30.1", "R4", "every route of HTTPServer is registered through _authorized_route; the Klein app is "
@@ -250,22 +266,34 @@ def run(ctx: Context):
                 return True
         return False
 
+    route_defs = def_exprs(fn)
+
+    def from_header(n, e, header):
+        """e is the header read, or a local all of whose definitions are that read or constants."""
+        res = fnorm.resolve(n, e)
+        if header_read(res, header):
+            return True
+        if isinstance(res, ast.Name):
+            ds = route_defs.get(res.id) or []
+            return bool(ds) and all(header_read(d, header) or isinstance(d, ast.Constant) for d in ds) \
+                and any(header_read(d, header) for d in ds)
+        return False
+
     def swiss_test(n):
         """The test node compares the Authorization header with the swissnum header, timing-safely."""
         if n.kind != "test":
-            return False
-        e = n.ast
+            return None
+        e, pol = underlying(fnorm, n)
         if not (isinstance(e, ast.Call) and call_tail(e) == "timing_safe_compare" and len(e.args) == 2 and not e.keywords):
-            return False
+            return None
         forms = [fnorm.norm(n, a) for a in e.args]
-        res = [fnorm.resolve(n, a) for a in e.args]
         for i in (0, 1):
-            if forms[i] == want_swiss and header_read(res[1 - i], "authorization"):
-                return True
-        return False
+            if forms[i] == want_swiss and from_header(n, e.args[1 - i], "authorization"):
+                return "T" if pol else "F"
+        return None
 
     def swiss_edge(n, lab):
-        return isinstance(lab, tuple) and lab[0] == "T" and swiss_test(n)
+        return isinstance(lab, tuple) and lab[0] == swiss_test(n)
 
     def extract_call(n):
         if n.kind != "stmt":
@@ -336,7 +364,7 @@ def run(ctx: Context):
         # the false edge of the swissnum comparison raises _HTTPError(401) before anything else happens
         for g in gates:
             for (d, lab) in cfg.succ[g.id]:
-                if not (isinstance(lab, tuple) and lab[0] == "F"):
+                if not (isinstance(lab, tuple) and lab[0] != swiss_test(g)):
                     continue
 
                 def stop_at_raise(n, l, nxt, st):
@@ -375,21 +403,19 @@ def run(ctx: Context):
                 continue
             bad = None
             for e in node_exprs(n):
+                par = {}
+                for y in own_nodes(e, into_lambda=True):
+                    for ch in ast.iter_child_nodes(y):
+                        par[ch] = y
                 for x in own_nodes(e, into_lambda=True):
-                    if isinstance(x, ast.Name) and x.id in forbidden_names:
+                    if not isinstance(x, ast.Name):
+                        continue
+                    if x.id in forbidden_names:
                         bad = x
-                    if isinstance(x, ast.Name) and x.id == selfp:
-                        bad = x
-                for x in own_nodes(e, into_lambda=True):
-                    # self._swissnum is the one permitted read
-                    if isinstance(x, ast.Attribute) and isinstance(x.value, ast.Name) and x.value.id == selfp \
-                            and x.attr == "_swissnum" and isinstance(x.ctx, ast.Load) and bad is x.value:
-                        bad = None
-                # re-scan: any other self use survives
-                for x in own_nodes(e, into_lambda=True):
-                    if isinstance(x, ast.Name) and x.id == selfp:
-                        par = [y for y in own_nodes(e, into_lambda=True) if isinstance(y, ast.Attribute) and y.value is x]
-                        if not (par and par[0].attr == "_swissnum" and isinstance(par[0].ctx, ast.Load)):
+                    elif x.id == selfp:
+                        p = par.get(x)
+                        # self._swissnum is the one permitted read
+                        if not (isinstance(p, ast.Attribute) and p.attr == "_swissnum" and isinstance(p.ctx, ast.Load)):
                             bad = x
             if is_fcall(n):
                 continue   # reported by C30.2
@@ -465,6 +491,7 @@ def run(ctx: Context):
                                 "(path: %s)" % w.brief(), w)
         # handlers cannot reach the normal exit
         for h in ecfg.find(lambda n: n.kind == "except"):
+            r.site(ex, h.ast, "parse-error handler")
             vis, par = explore(ecfg, 0, lambda n, lab, nxt, st: 0, start=h)
             for (nid, _s) in sorted(vis):
                 if ecfg.nodes[nid].kind == "exit":
@@ -475,17 +502,20 @@ def run(ctx: Context):
     # ---------------------------------------------------------------- 4 -------
     with ctx.rule("C30.4", "R1/R4", "a BucketWriter of an in-progress upload is handed out only after "
                   "validate_upload_secret; write/abort routes require Secrets.UPLOAD and use only that writer",
-                  expected=9) as r:
+                  expected=8) as r:
         uip = idx.cls(UIP)
         gw = idx.func(UIP + ".get_write_bucket")
         gp = first_positional_params(gw)
         gn = FlowNorm(gw)
         gcfg = gw.cfg()
 
+        vparams = first_positional_params(idx.func(UIP + ".validate_upload_secret"))
+
         def validated(n):
             for c in calls_at(n, "validate_upload_secret"):
-                if call_name(c) == "self.validate_upload_secret" and not c.keywords \
-                        and [a.id if isinstance(a, ast.Name) else None for a in c.args] == gp[:3]:
+                got = [arg(c, i, vparams[i]) for i in range(3)]
+                if call_name(c) == "self.validate_upload_secret" \
+                        and [a.id if isinstance(a, ast.Name) else None for a in got] == gp[:3]:
                     return True
             return False
         rets = gcfg.find(is_return)
@@ -515,9 +545,9 @@ def run(ctx: Context):
                 return True
             if f[0] == "not in" and f[1] == vp[1] and f[2] == ups:
                 return True
-            if f[0] == "truth" and m.kind == "test" and isinstance(m.ast, ast.Call) \
-                    and call_tail(m.ast) == "timing_safe_compare" and len(m.ast.args) == 2:
-                forms = {vn.norm(m, a) for a in m.ast.args}
+            e, _pol = underlying(vn, m) if m.kind == "test" else (None, True)
+            if f[0] == "truth" and isinstance(e, ast.Call) and call_tail(e) == "timing_safe_compare" and len(e.args) == 2:
+                forms = {vn.norm(m, a) for a in e.args}
                 return forms == {"%s[%s]" % (ups, vp[1]), vp[2]}
             return False
         for (t, w) in find_path_avoiding(vcfg, lambda n: n.kind == "exit", gate_edge=passes, kill=stores_any(vp[:3])):
